@@ -352,14 +352,16 @@ class Exec:
             return Struct({i: self.operand(path, x) for i, x in enumerate(split_top(s[1:-1]))}, "tuple")
         if s.startswith("[") and s.endswith("]"):
             return VecV([self.operand(path, x) for x in split_top(s[1:-1])])
-        m = re.match(r"(Add|Sub|Eq|Ne|Lt|Le|Gt|Ge|AddWithOverflow|SubWithOverflow)\((.*)\)$", s)
+        if s.startswith("{closure@"):
+            return Opaque("closure")
+        m = re.match(r"(Add|Sub|Mul|Eq|Ne|Lt|Le|Gt|Ge|AddWithOverflow|SubWithOverflow|MulWithOverflow)\((.*)\)$", s)
         if m:
             a, b = [self.operand(path, x) for x in split_top(m.group(2))]
             op = m.group(1)
             if isinstance(a, bool) or isinstance(b, bool) or not all(isinstance(x, int) or z3.is_int(x) for x in (a, b)):
                 raise Unsupported("binary op on %r, %r" % (a, b))
-            if op in ("Add", "AddWithOverflow", "Sub", "SubWithOverflow"):
-                v = a + b if op.startswith("Add") else a - b
+            if op in ("Add", "AddWithOverflow", "Sub", "SubWithOverflow", "Mul", "MulWithOverflow"):
+                v = a + b if op.startswith("Add") else (a - b if op.startswith("Sub") else a * b)
                 return Struct({0: v, 1: False}, "tuple") if op.endswith("Overflow") else v
             return {"Eq": a == b, "Ne": a != b, "Lt": a < b, "Le": a <= b, "Gt": a > b, "Ge": a >= b}[op]
         m = re.match(r"Not\((.*)\)$", s)
